@@ -66,6 +66,7 @@ def dispatch (op : String) (args : List SExp) : Option OpResult :=
   | "dav.readdir" => opDavReadDir false args
   | "dav.readdir-local" => opDavReadDir true args
   | "dav.op" => opDavOp args
+  | "dav.fail" => opDavFail args
   | "pf.prin" => opPfPrin args
   | "obj.cals" => opObjCals args
   | "obj.books" => opObjBooks args
